@@ -635,6 +635,13 @@ func (w *world) observe(rs reqSpec, r *http.Request, clientHdrs [][]string, rec 
 		ir := &initRec{state: st, nonce: no, challenge: q.Get("code_challenge"), redirect: q.Get("redirect_uri"), step: w.step}
 		w.lastInit[w.b] = ir
 		w.allInits[w.b] = append(w.allInits[w.b], ir)
+		// ---- C04: a request to the callback path (a reload or back-button visit of the used callback URL, a stale or foreign
+		// callback) never ends an established session
+		if tok := w.loginTok[w.b]; path == "/cb" && w.loggedIn[w.b] && !w.tampered[w.b] && tok != nil && tok.valid {
+			if now := time.Now().Unix(); now-w.loginAt[w.b] <= 86400 && tok.accFrom <= now && tok.exp-now > int64(w.grace) && w.refDomainOK(tok.email) && (len(w.roles) == 0 || w.refRolesOK(tok)) {
+				T.oracle("C04", "an established session was ended (cookies replaced by a login redirect) by a request to the callback path", M{"note": rs.note, "token": tok.id}, w.replay())
+			}
+		}
 		w.loggedIn[w.b], w.rtOf[w.b] = false, "" // the session was cleared for a new login
 		for _, pair := range [][2]string{{st, "state"}, {no, "nonce"}} {
 			if _, dup := w.allRandoms[pair[0]]; dup {
@@ -1197,9 +1204,14 @@ func (w *world) referenceSessionValid(j jar, rs reqSpec) (bool, string) {
 
 var _ = sort.Strings
 
-// otherKeyValue: a syntactically perfect cookie value for `name` made by a SessionManager whose key differs in one character
+// otherKeyValue: a syntactically perfect cookie value for `name` made by a SessionManager under another key (each call takes the
+// next of otherSessKeys)
 func otherKeyValue(name string, force bool) string {
-	sm2, _ := oidc.NewSessionManager(otherSessKey, force, oidc.NewLogger("none"))
+	otherKeyTurn++
+	sm2, err2 := oidc.NewSessionManager(otherSessKeys[otherKeyTurn%len(otherSessKeys)], force, oidc.NewLogger("none"))
+	if err2 != nil || sm2 == nil {
+		return "garbage"
+	}
 	r := httptest.NewRequest("GET", "http://app.test/", nil)
 	sd, err := sm2.GetSession(r)
 	if err != nil {
